@@ -86,7 +86,9 @@ pub fn real_exponent(es: u8, en: i32, eu: f64) -> f64 {
         10 | 11 => 10f64.powf(3.0 + 297.0 * eu) * if en & 1 == 0 { 1.0 } else { -1.0 },
         0 => {
             // 0 and its neighbourhood
-            [0.0, f64::EPSILON, -f64::EPSILON, 5e-324, 1e-300][en.rem_euclid(5) as usize]
+            // ... incl. non-zero exponents far below machine epsilon (x^n is 1 to working precision, its
+            // derivative n x^(n-1) is not 0); the caller maps the f32 ones
+            [0.0, f64::EPSILON, -f64::EPSILON, 5e-324, 1e-300, 1e-17, -3e-20, 0.9 * f64::EPSILON, 1e-100, -1e-8, 1e-12][en.rem_euclid(11) as usize]
         }
         1 => ulps(1.0, k),
         2 => ulps(2.0, k),
@@ -352,7 +354,7 @@ impl Property for C09 {
         }
     }
     fn rule() -> String {
-        "generated: (type, kind in {powi, powf, powd, 4 relation templates}, exponent from strata: powi -10..10, the special cases 0,1,2,3, the i32-overflow thresholds of n(n-1) (46341+-2) and n(n-1)(n-2) (1291+-2), +-2^k up to 2^30, random up to 2^30; powf 0, 1, 2 each +-{1,2,4} ulp, 2 +- fractions of epsilon, +-eps, denormal, negative, non-integer, integer-valued, 3 +- 1e-9, large up to +-300, half-integers, huge +-10^3..10^300 (f32: 10^37) both at a base ~ 1 and at a fixed base 0.5/0.9/1e-3/0.999 (or its reciprocal) where the power and all its derivatives underflow to 0; base x = +-exp(t/n) with t in [-30,30] so that x^n stays representable; negative bases with integer exponents; powd with an arbitrary dual exponent). Oracle: generalized binomial Taylor data t_k = C(n,k) x^(n-k) in the reference algebra (powd: exp(y ln x)) with the rounding bound of the library's x^(n-3) x x x scheme and |n| units for repeated squaring; relation templates additionally compare the library results with each other (tolerance 32 u (e_a+e_b)). Non-trivial: |n| > 3 or non-integer exponent, and a part of order >= 2 is non-zero.".into()
+        "generated: (type, kind in {powi, powf, powd, 4 relation templates}, exponent from strata: powi -10..10, the special cases 0,1,2,3, the i32-overflow thresholds of n(n-1) (46341+-2) and n(n-1)(n-2) (1291+-2), +-2^k up to 2^30, random up to 2^30; powf 0 and tiny non-zero exponents (+-eps, 0.9 eps, 1e-8, 1e-12, 1e-17, 3e-20, 1e-100, 1e-300, denormal), 1, 2 each +-{1,2,4} ulp, 2 +- fractions of epsilon, +-eps, denormal, negative, non-integer, integer-valued, 3 +- 1e-9, large up to +-300, half-integers, huge +-10^3..10^300 (f32: 10^37) both at a base ~ 1 and at a fixed base 0.5/0.9/1e-3/0.999 (or its reciprocal) where the power and all its derivatives underflow to 0; base x = +-exp(t/n) with t in [-30,30] so that x^n stays representable; negative bases with integer exponents; powd with an arbitrary dual exponent). Oracle: generalized binomial Taylor data t_k = C(n,k) x^(n-k) in the reference algebra (powd: exp(y ln x)) with the rounding bound of the library's x^(n-3) x x x scheme and |n| units for repeated squaring; relation templates additionally compare the library results with each other (tolerance 32 u (e_a+e_b)). Non-trivial: |n| > 3 or non-integer exponent, and a part of order >= 2 is non-zero.".into()
     }
     fn assumptions() -> Vec<String> {
         vec![
